@@ -580,11 +580,16 @@ class Unit:
         # ---- T1: `impl<'a> TryFrom<&'a [u8]> for X<'a>` -> inherent `impl<'a> X<'a> { pub fn try_from }` (body verbatim)
         if f.get('tryfrom_inherent'):
             for it in kept:
-                m = re.match(r"^impl<'a> TryFrom<&'a \[u8\]> for (\w+)<'a>$", it['key'])
-                if not m:
+                m0 = re.match(r"^impl(<[^>]*>)? TryFrom<(.+)> for (\w+)(<.*>)?$", it['key'])
+                if not m0 or it['body_open'] is None:
                     continue
+                class _M:
+                    pass
+                m = _M()
+                tname = m0.group(3)
+                m.group = lambda k, _t=tname: _t
                 hdr_end = it['body_open']
-                ed.add(it['hdr_a'], hdr_end, "impl<'a> %s<'a> " % m.group(1), 'T1')
+                ed.add(it['hdr_a'], hdr_end, "impl%s %s%s " % (m0.group(1) or '', tname, m0.group(4) or ''), 'T1')
                 body = text[it['body_open']:it['b']]
                 tm = re.search(r'type Error = SnmpError;\s*\n', body)
                 if not tm:
@@ -595,7 +600,7 @@ class Unit:
                 for em in re.finditer(r'Self::Error', body):
                     ed.add(it['body_open'] + em.start(), it['body_open'] + em.end(), 'SnmpError', 'T1')
                 self.rule('T1', path, line_of(text, it['hdr_a']), '`%s` emitted as inherent `impl<\'a> %s<\'a> { pub fn try_from }` (Verus cannot put a contract on a foreign-trait impl)' % (it['key'], m.group(1)))
-                it['key_t1'] = "impl<'a> %s<'a>" % m.group(1)
+                it['key_t1'] = "impl %s" % m.group(1)
         # ---- T2: `impl Trait for X { fn f }` -> inherent `impl X { pub fn f }` for the trait named in the unit's [t2] table
         t2 = self.spec.get('t2')
         if t2:
